@@ -965,9 +965,12 @@ RULE_C16 = ("operations read_id, read_all, read_byte, read_block, read_segment, 
             "then for every command position p x error kind (Timeout/Transmission/Protocol) x burst 1..4 x flavour "
             "(command lost / response lost) the operation is re-run on a fresh model with dev.script; a case is "
             "(product, operation, p, kind, burst, flavour), non-trivial when outcome, final memory and the sequence of "
-            "answered commands were compared with the fault-free run")
+            "answered commands were compared with the fault-free run; at every cell (any burst) an operation that "
+            "returns normally returns the fault-free result or its documented failure value (None / False / "
+            "has_changed True / a dump that stops at the failing block) and, with the fault-free result, leaves the "
+            "fault-free tag memory")
 REQUIRED_C16 = ["t1t_c16_fault_runs", "t1t_c16_recovered", "t1t_c16_failed_as_tagcommanderror", "t1t_c16_ops",
-                "t1t_c16_answered_sequences_compared"]
+                "t1t_c16_answered_sequences_compared", "t1t_c16_normal_returns_judged"]
 
 KINDS = ["TimeoutError", "TransmissionError", "ProtocolError"]
 
@@ -1119,7 +1122,66 @@ def c16_check_reference(case, ref, R):
             break
 
 
+def _nviol(R):
+    return sum(v["count"] for v in R.violations.values())
+
+
 def c16_case(case, R, ref):
+    """one cell: the specific clauses first; a cell that passed them is then judged by the always-on clause
+    'an operation that returns normally returns the fault-free result or its documented failure value, and with the
+    fault-free result the tag memory is the fault-free memory' (c16_silent)"""
+    nv = _nviol(R)
+    got = c16_case_judge(case, R, ref)
+    if _nviol(R) == nv:
+        c16_silent(case, R, ref, got)
+
+
+def c16_failure_value(op, res):
+    """the documented way of `op` to report failure without raising (normalised result)"""
+    if op == "ndef_read":
+        return res is None
+    if op == "has_changed":                 # unreadable NDEF data reads as "changed"
+        return res is True
+    if op in ("is_present", "format", "protect"):
+        return res is False
+    return False
+
+
+def c16_dump_reports_error(got, want):
+    """dump() stops at the first block it cannot read: the lines printed so far are lines of the complete dump,
+    followed by at most two closing lines ('*' line and last block of a run of equal blocks)"""
+    if not (isinstance(got, tuple) and isinstance(want, tuple) and got[0] == want[0] == "list"):
+        return False
+    want_set = set(want[1])
+    return sum(1 for x in got[1] if x not in want_set) <= 2
+
+
+def c16_silent(case, R, ref, got):
+    out, rout, op, f = got["outcome"], ref["outcome"], case["op"], case["fault"]
+    if out[0] != "ok" or rout[0] != "ok":
+        return
+    R.count("t1t_c16_normal_returns_judged")
+    where = "%s on %s, %s x%d (%s) at command %d of %d" % (op, case["product"], f["kind"], f["b"], f["flavour"], f["p"],
+                                                          len(ref["log"]))
+    res, want = out[1], rout[1]
+    if res != want:
+        if c16_failure_value(op, res) or (op == "dump" and c16_dump_reports_error(res, want)):
+            R.count("t1t_c16_normal_return_reports_failure")
+        else:
+            R.violation("t1t/c16/silent-wrong-result/" + op,
+                        "%s: returned %r without any error, fault-free result %r" % (where, str(res)[:70], str(want)[:70]), case)
+        return
+    if c16_failure_value(op, res):
+        R.count("t1t_c16_normal_return_reference_is_failure_value")      # cannot tell failure from success
+        return
+    if got["mem"] != ref["mem"]:
+        R.violation("t1t/c16/silent-wrong-memory/" + op,
+                    "%s: returned the fault-free result but the final tag memory differs" % where, case)
+        return
+    R.count("t1t_c16_normal_return_same_result_same_memory")
+
+
+def c16_case_judge(case, R, ref):
     import nfc.tag
     f = case["fault"]
     op = case["op"]
@@ -1134,10 +1196,10 @@ def c16_case(case, R, ref):
                                                           len(ref["log"]))
     if out[0] == "exc":
         R.violation("t1t/c16/escape/%s/%s" % (op, out[1]), "%s: %s escaped" % (where, out[2]), case)
-        return
+        return got
     if out[0] == "bound":
         R.violation("t1t/c16/unbounded-retries/" + op, "%s: more than 3000 commands" % where, case)
-        return
+        return got
     ref_ans = _answered(ref["log"])
     ans = _answered(got["log"])
     if f["b"] <= 2:
@@ -1145,7 +1207,7 @@ def c16_case(case, R, ref):
         if out[0] == "tce":
             R.violation("t1t/c16/fails-within-budget/%s/b%d" % (op, f["b"]),
                         "%s: ended with %s errno %r although the burst is within the retry budget" % (where, out[2], out[1]), case)
-            return
+            return got
         R.count("t1t_c16_recovered")
         if out != ref["outcome"]:
             R.violation("t1t/c16/result-differs/" + op, "%s: result %r, fault-free %r" % (where, out, ref["outcome"]), case)
@@ -1156,7 +1218,7 @@ def c16_case(case, R, ref):
             dup = any(ans[i] == ans[i - 1] for i in range(1, len(ans))) and len(ans) > len(ref_ans)
             R.violation("t1t/c16/%s/%s" % ("answered-command-sent-again" if dup else "command-sequence-differs", op),
                         "%s: answered commands %d, fault-free %d" % (where, len(ans), len(ref_ans)), case)
-        return
+        return got
     # burst of 3 or 4: the command at position p cannot succeed
     attempts = [cmd for (n, cmd, rsp) in got["log"][f["p"]:f["p"] + 4]]
     same = 1
@@ -1173,7 +1235,7 @@ def c16_case(case, R, ref):
         if out[1] != errno_of[f["kind"]]:
             R.violation("t1t/c16/errno-mismatch/" + f["kind"],
                         "%s: %s errno %r, expected %r" % (where, out[2], out[1], errno_of[f["kind"]]), case)
-        return
+        return got
     res = out[1]
     documented = (op == "is_present" and res is False) or (op == "ndef_read" and res is None) or \
         (op == "has_changed" and isinstance(res, bool)) or (op in ("format", "protect") and res is False) or \
@@ -1184,3 +1246,4 @@ def c16_case(case, R, ref):
     else:
         R.violation("t1t/c16/persistent-error-hidden/" + op,
                     "%s: the command failed three times but the operation returned %r" % (where, res), case)
+    return got
